@@ -15,13 +15,14 @@ RULE = ("states = canonical (totals dict, Counter hidden state incl. scalar-vs-a
 ASSUMPTIONS = ["reference model: dict of totals = initial value + occurrences", "samples lie inside the key dtype's range (others are outside the statement)"]
 REQUIRED_FEATURES = ["empty_batch", "only_non_keys", "non_key_colliding", "non_key_empty_bucket", "all_keys_collide", "scalar_nonzero_init",
                      "array_init", "large_key", "cross_history_comparisons", "depth2"]
-BOUNDS = {"quick": "8 key sets x moduli {default,1,2,3,4,64} x initial {default, 0, 4, per-key array} (+ int8/uint8/uint64/python-list keys, int32 counts on 4 sets); "
+BOUNDS = {"quick": "10 key sets (1-5 keys, and 10 / 17 keys) x moduli {default,1,2,3,4,64} x initial {default, 0, 4, per-key array} (+ int8/uint8/uint64/python-list keys, int32 counts on 4 sets); "
                    "all count histories of depth <= 2 over ~32 batches and depth 3 with the third batch from the 12 simplest (empty, every single universe element, ordered pairs over keys / colliding and "
                    "free non-keys, heavy repetition, only non-keys, large keys)",
           "thorough": "12 key sets, depth 3 over the full batch alphabet"}
 
-U = [0, 1, 2, 3, 5, 7, -1, 2 ** 62, 2 ** 62 + 1]
-KEYSETS_Q = [[0], [1, 3], [0, 1, 2], [5, -1, 2], [3, 0, 5, 1], [2 ** 62, 1], [7, 2 ** 62 + 1, 2 ** 62], [-1]]
+U = [0, 1, 2, 3, 5, 7, -1, 2 ** 62, 2 ** 62 + 1, 12, 15, 44]
+KEYSETS_Q = [[0], [1, 3], [0, 1, 2], [5, -1, 2], [3, 0, 5, 1], [2 ** 62, 1], [7, 2 ** 62 + 1, 2 ** 62], [-1],
+             list(range(10, 20)), list(range(40, 57))]      # 10 and 17 keys: above size thresholds of 8 / 16
 KEYSETS_T = KEYSETS_Q + [[2, 7], [0, 3, 5, 7, 1], [-1, 0], [2 ** 62 + 1]]
 MODS = [None, 1, 2, 3, 4, 64]
 INITS = ["default", "zero", "four", "array"]
